@@ -8,12 +8,13 @@ import (
 	verif "github.com/uber/kraken/zzverif"
 )
 
+// verifClient builds the client through its constructor, with the in-memory
+// S3 plugged into the S3 seam (WithS3).
 func verifClient(m *verifS3, root, pather string, listMaxKeys int) *Client {
-	p, err := namepath.New(root, pather)
-	verif.Assert("pather", err == nil)
 	cfg := Config{Username: "u", Region: "r", Bucket: m.bucket, RootDirectory: root, NamePath: pather, ListMaxKeys: listMaxKeys}
-	cfg.applyDefaults()
-	return &Client{config: cfg, pather: p, stats: tally.NoopScope, s3: m}
+	c, err := NewClient(cfg, UserAuthConfig{"u": AuthConfig{}}, tally.NoopScope, WithS3(m))
+	verif.Assert("new-client", err == nil)
+	return c
 }
 
 var verifNames = []string{"a/x", "a/y", "a/z", "ab", "b/x", "a/w"}
